@@ -864,7 +864,12 @@ class BranchCoverageInstrumentation(transformer.BranchCoverageInstrumentationAda
         if (
             ast_info is not None
             and isinstance(maybe_jump.lineno, int)
-            and not ast_info.should_cover_conditional_statement(maybe_jump.lineno)
+            and not (
+                ast_info.should_cover_conditional_statement(maybe_jump.lineno)
+                # Not every jump belongs to a conditional statement (conditional expressions,
+                # exception handlers, ...): its own line must be covered, too.
+                and ast_info.should_cover_line(maybe_jump.lineno)
+            )
         ):
             return
 
